@@ -309,7 +309,9 @@ POSITIONS = ["f({X})", "f(k={X})", "f(*{X})", "f(**{X})", "({X})[0]", "z[{X}]", 
              "{X} and c", "c or {X}", "{X} > 1", "1 < c < {X}", "lambda e, n={X}: e", "lambda e, *, n={X}: e", "lambda e: {X}",
              "f(lambda e, n={X}: e.a + n)", "[a for a in {X}]", "[{X} for a in b]", "[a for a in b if {X}]",
              "{{a: {X} for a in b}}", "({X} for a in b)", "{X}.attr", "{X}(1)", "f'{{{X}}}'", "(y := {X})", "{X}.decoy(1)",
-             "g(h({X}))", "{X}.Select(lambda e: {X})", "Select({X}, lambda e, n={X}: n)"]
+             "g(h({X}))", "{X}.Select(lambda e: {X})", "Select({X}, lambda e, n={X}: n)",
+             # inside the keyword argument of a NON-operator method call, alone and as a link of a method chain
+             "obj.m(k={X})", "obj.m(k={X}).n()", "obj.m(1).n(k={X}).o(2)", "obj.m(*{X}).n(**{X})", "{X}.closest(to={X})"]
 XS = ["ds.Select(lambda e: e.a)", "ds.jets.Count()", "ds.Where(lambda e: e.jets.First().pt > 1).First()"]
 
 
